@@ -1,7 +1,8 @@
 """C11 — block-list invariants survive any sequence of bundle mutations (K-ops channel, debug+release).
 
 Case line:  OPS <clock_ms> <bundle> ; op ; op ...      with op one of
-    SORT | ADD <C type num flags crc data> | SETPAYLOAD x<hex> | SETPB <C ...> | SETCRC <0..255> | UPD <eid> <residence>
+    SORT | BUILD | BUILDP x<hex> (the bundle goes through BundleBuilder) | ADD <C type num flags crc data> | ADDC <C ..> (the block is made by
+    the public constructor of its type) | SETPAYLOAD x<hex> | SETPB <C ...> | SETCRC <0..255> | UPD <eid> <residence>
 Both sides print the whole bundle after every operation and `FINAL <VALID|INVALID n> PL <payload> RT <T|F>`.
 The oracle is stateless (it re-parses the case line) and evaluates the invariant of Model/OpSeq.v (`Inv`) on the
 implementation's bundle after EVERY step of an in-domain line (valid builder start state, admissible arguments)."""
@@ -186,7 +187,7 @@ def op_ok(strict, clock, o):
     k = o[0]
     if k == "SORT":
         return True
-    if k == "ADD":
+    if k in ("ADD", "ADDC"):
         return block_ok(strict, o[1])
     if k == "SETPAYLOAD":
         return True
@@ -207,8 +208,11 @@ def in_domain(clock, b0, ops):
     """start_ok of the state the builder returns (after the leading SORT, if any) and admissible operations"""
     start = b0
     rest = ops
-    if ops and ops[0][0] == "SORT":
+    if ops and ops[0][0] in ("SORT", "BUILD"):        # BUILD = BundleBuilder: sorts, and refuses unless the last block carries payload data
         start = dict(p=b0["p"], cs=sort_desc(b0["cs"]))
+        rest = ops[1:]
+    elif ops and ops[0][0] == "BUILDP":               # .canonicals(cs).payload(d): the payload block is pushed behind the others first
+        start = dict(p=b0["p"], cs=sort_desc(b0["cs"] + [dict(type=1, num=1, flags=0, crc=("N",), data=("DATA", ops[0][1]))]))
         rest = ops[1:]
     nums = [c["num"] for c in start["cs"]]
     if nums != sorted(nums, reverse=True) or not start["cs"] or start["cs"][-1]["data"][0] != "DATA":
@@ -216,16 +220,18 @@ def in_domain(clock, b0, ops):
     if not (valid(start) and wf(start)):
         return False
     strict = is_strict(b0["p"])
-    return all(o[0] != "SORT" and op_ok(strict, clock, o) for o in rest)
+    return all(o[0] not in ("SORT", "BUILD", "BUILDP") and op_ok(strict, clock, o) for o in rest)
 
 
 # ------------------------------------------------------------------ case lines ---------------------------------
 
 def show_op(o):
     k = o[0]
-    if k == "SORT":
-        return "SORT"
-    if k in ("ADD", "SETPB"):
+    if k in ("SORT", "BUILD"):
+        return k
+    if k == "BUILDP":
+        return "BUILDP " + xhex(o[1])
+    if k in ("ADD", "SETPB", "ADDC"):
         return "%s %s" % (k, genb.show_canonical(o[1]))
     if k == "SETPAYLOAD":
         return "SETPAYLOAD " + xhex(o[1])
@@ -257,9 +263,11 @@ def parse_line(line):
     while t.i < len(toks):
         assert t.next() == ";"
         k = t.next()
-        if k == "SORT":
-            ops.append(("SORT",))
-        elif k in ("ADD", "SETPB"):
+        if k in ("SORT", "BUILD"):
+            ops.append((k,))
+        elif k == "BUILDP":
+            ops.append((k, t.b()))
+        elif k in ("ADD", "SETPB", "ADDC"):
             ops.append((k, parse_canonical(t)))
         elif k == "SETPAYLOAD":
             ops.append((k, t.b()))
@@ -385,10 +393,29 @@ def _clock(rng, p):
     return OFFSET + min(now, MAXN - OFFSET)
 
 
+def _constructible(c):
+    """can the block be made by the public constructor of its type (new_*_block / new_canonical_block)?"""
+    return c["crc"] == ("N",) and (c["data"][0] != "HOP" or c["data"][2] == 0)
+
+
 def seq_line(rng, kinds, shape=None, reqnum=None):
     b, needs_sort = start_bundle(rng, shape)
     strict = is_strict(b["p"])
-    ops = ([("SORT",)] if needs_sort else []) + [mk_op(rng, k, strict, reqnum) for k in kinds]
+    first = []
+    if needs_sort:
+        # the start state is made by BundleBuilder itself (BUILD; BUILDP when the payload block can be handed over through payload():
+        # flags 0, no CRC), or - as before - by Bundle::new + sort_canonicals, which is what build() does
+        r = rng.random()
+        pl = [c for c in b["cs"] if c["type"] == 1]
+        if r < 0.45:
+            first = [("BUILD",)]
+        elif r < 0.75 and len(pl) == 1 and pl[0]["flags"] == 0 and pl[0]["crc"] == ("N",) and pl[0]["num"] == 1:
+            b = dict(p=b["p"], cs=[c for c in b["cs"] if c["type"] != 1])
+            first = [("BUILDP", pl[0]["data"][1])]
+        else:
+            first = [("SORT",)]
+    ops = first + [mk_op(rng, k, strict, reqnum) for k in kinds]
+    ops = [("ADDC", o[1]) if o[0] == "ADD" and _constructible(o[1]) and rng.random() < 0.5 else o for o in ops]
     return mk_line(_clock(rng, b["p"]), b, ops)
 
 
@@ -489,7 +516,9 @@ def oracle(line, out, mode):
         return None
     expect = payload_of(b0)
     for i, (o, (ret, b)) in enumerate(zip(ops, steps)):
-        if o[0] == "SETPAYLOAD":
+        if o[0] in ("BUILD", "BUILDP") and ret != "OK":
+            return "BundleBuilder refuses a block list whose last block (after sorting) carries payload data"
+        if o[0] in ("SETPAYLOAD", "BUILDP"):
             expect = o[1]
         elif o[0] == "SETPB":
             expect = o[1]["data"][1]
@@ -513,24 +542,25 @@ def oracle(line, out, mode):
 
 
 def same(line, io, mo):
-    return False
+    return api_common.same(line, io, mo)
 
 
 def _sig(ops):
-    m = {"SORT": "S", "ADD": "A", "SETPAYLOAD": "P", "SETPB": "B", "SETCRC": "C", "UPD": "U"}
+    m = {"SORT": "S", "ADD": "A", "ADDC": "A", "SETPAYLOAD": "P", "SETPB": "B", "SETCRC": "C", "UPD": "U", "BUILD": "S", "BUILDP": "S"}
     return "".join(m[o[0]] for o in ops)
 
 
 def classify(line, out):
     if api_common.is_api(line):
-        return "API " + " ".join(line.split()[1:3][:1 if line.split()[1] != "BLK" else 2]) + " " + (out or "").split(" ")[0]
+        tag = "strict" if api_common.strict(line) else ("observation-differs-from-documentation" if api_common.observed_difference(line, out) else "observation")
+        return "API " + " ".join(line.split()[1:3][:1 if line.split()[1] != "BLK" else 2]) + " " + (out or "").split(" ")[0] + " " + tag
     try:
         clock, b0, ops = parse_line(line)
     except Exception:
         return "unparsed"
     tail = (out or "").split(" FINAL ")
     dom = "dom" if in_domain(clock, b0, ops) else "OUT-OF-DOMAIN"
-    return "%s len=%d %s" % (dom, len([o for o in ops if o[0] != "SORT"]), tail[1].split(" PL ")[0] if len(tail) > 1 else (out or "")[:10])
+    return "%s len=%d %s" % (dom, len([o for o in ops if o[0] not in ("SORT", "BUILD", "BUILDP")]), tail[1].split(" PL ")[0] if len(tail) > 1 else (out or "")[:10])
 
 
 def nontrivial(line, out):
@@ -565,7 +595,7 @@ def shrink(v, run):
     while changed:
         changed = False
         for i in range(len(ops)):
-            if ops[i][0] == "SORT":
+            if ops[i][0] in ("SORT", "BUILD", "BUILDP"):
                 continue
             r = fails(b, ops[:i] + ops[i + 1:])
             if r:
